@@ -93,15 +93,33 @@ fn header_value() -> impl Strategy<Value = Hex> {
     ]
 }
 
+/// header fields that carry protocol semantics in HTTP/1.x (framing, connection management,
+/// authentication, proxying) with values of the kind clients really send; the name's case varies
+fn known_header() -> impl Strategy<Value = (String, Hex)> {
+    let hv = prop_oneof![
+        4 => (prop::sample::select(vec!["Content-Length", "Content-Length", "content-length", "CONTENT-LENGTH"]), prop_oneof![3 => (0u32..64).prop_map(|n| n.to_string()), 1 => Just("0".to_string()), 1 => (64u32..100000).prop_map(|n| n.to_string()), 1 => Just("18446744073709551616".to_string()), 1 => "[0-9a-f+ -]{1,6}"]).prop_map(|(n, v)| (n.to_string(), v)),
+        2 => (Just("Transfer-Encoding"), prop::sample::select(vec!["chunked", "gzip, chunked", "identity"])).prop_map(|(n, v)| (n.to_string(), v.to_string())),
+        2 => (prop::sample::select(vec!["Connection", "Proxy-Connection"]), prop::sample::select(vec!["keep-alive", "close", "Upgrade", "Keep-Alive, Upgrade"])).prop_map(|(n, v)| (n.to_string(), v.to_string())),
+        2 => (Just("Host"), prop::sample::select(vec!["localhost", "example.com:443", "[::1]:8080", "10.0.0.1", ""])).prop_map(|(n, v)| (n.to_string(), v.to_string())),
+        1 => (Just("Expect"), Just("100-continue")).prop_map(|(n, v)| (n.to_string(), v.to_string())),
+        1 => (Just("Upgrade"), prop::sample::select(vec!["h2c", "websocket", "TLS/1.0"])).prop_map(|(n, v)| (n.to_string(), v.to_string())),
+        2 => (prop::sample::select(vec!["Authorization", "Proxy-Authorization"]), prop::sample::select(vec!["Basic YWRtaW46YWRtaW4=", "Digest username=\"a\"", "Bearer x", "NTLM TlRMTVNTUAABAAAA", "Negotiate"])).prop_map(|(n, v)| (n.to_string(), v.to_string())),
+        1 => (prop::sample::select(vec!["Range", "Content-Type", "User-Agent", "Accept-Encoding", "Cookie", "TE", "Trailer", "Via", "X-Forwarded-For", "Max-Forwards"]), prop::sample::select(vec!["bytes=0-", "application/x-www-form-urlencoded", "Mozilla/5.0 zgrab/0.x", "gzip", "a=b", "trailers", "1.1 proxy", "127.0.0.1", "0"])).prop_map(|(n, v)| (n.to_string(), v.to_string())),
+    ];
+    (hv, prop_oneof![4 => Just(" "), 1 => Just(""), 1 => Just("\t"), 1 => Just("  ")]).prop_map(|((n, v), sep)| (n, Hex(format!("{}{}", sep, v).into_bytes())))
+}
+
 pub fn http_req() -> impl Strategy<Value = HttpReq> {
     (
         0usize..9,
         target_bytes(),
         "[0-9]{1,2}",
         "[0-9]{1,2}",
-        vec(("[A-Za-z][A-Za-z0-9-]{0,14}", header_value()), 0..=5),
+        vec(prop_oneof![3 => ("[A-Za-z][A-Za-z0-9-]{0,14}", header_value()).boxed(), 2 => known_header().boxed()], 0..=5),
         vec(any::<bool>(), 8),
-        prop_oneof![3 => Just(Hex(vec![])), 1 => vec(any::<u8>(), 0..40).prop_map(Hex)],
+        // bytes after the empty line: none, a few (a body shorter / as long as / longer than an
+        // announced Content-Length), arbitrary
+        prop_oneof![4 => Just(Hex(vec![])), 2 => vec(any::<u8>(), 0..40).prop_map(Hex), 1 => (0usize..70, any::<u8>()).prop_map(|(n, b)| Hex(vec![b; n]))],
     )
         .prop_map(|(verb, target, major, minor, headers, crlf, tail)| HttpReq { verb, target, major, minor, headers, crlf, tail })
 }
@@ -183,7 +201,31 @@ pub fn ghost_req() -> impl Strategy<Value = Hex> {
         v.extend_from_slice(&body);
         Hex(v)
     });
-    prop_oneof![3 => random_tail, 2 => structured]
+    // a real Gh0st client packet: header + zlib stream of a command token followed by its
+    // structure (the login packet — token 0x66 — carries OS version info, CPU speed, IP address,
+    // host name, ...: a few hundred bytes); lengths consistent or lying
+    let compressed = (prop_oneof![4 => Just(0x66u8), 1 => Just(0u8), 1 => any::<u8>()], 0usize..420, any::<[u8; 16]>(), 0u8..10, prop_oneof![4 => Just(0i32), 1 => -8i32..8]).prop_map(|(token, n, seed, level, lie)| {
+        let mut plain = Vec::with_capacity(n + 1);
+        plain.push(token);
+        for i in 0..n {
+            // compressible but not constant: text-like fields separated by zero runs
+            plain.push(if (i / 24) % 2 == 0 { seed[i % 16] | 0x20 } else { 0 });
+        }
+        let z = zlib_compress(&plain, level as u32);
+        let mut v = b"Gh0st".to_vec();
+        v.extend_from_slice(&((13 + z.len()) as i32 + lie).max(0).to_le_bytes());
+        v.extend_from_slice(&((plain.len() as i32 + lie).max(0)).to_le_bytes());
+        v.extend_from_slice(&z);
+        Hex(v)
+    });
+    prop_oneof![3 => random_tail, 2 => structured, 3 => compressed]
+}
+
+pub fn zlib_compress(data: &[u8], level: u32) -> Vec<u8> {
+    use std::io::Write;
+    let mut e = flate2::write::ZlibEncoder::new(Vec::new(), flate2::Compression::new(level.min(9)));
+    let _ = e.write_all(data);
+    e.finish().unwrap_or_default()
 }
 
 // ---------------------------------------------------------------------------------------
@@ -250,17 +292,40 @@ pub fn stun_id() -> impl Strategy<Value = [u8; 16]> {
 }
 
 pub fn stun_change_request() -> impl Strategy<Value = StunAttr> {
-    (0u8..8).prop_map(|bits| StunAttr { typ: 3, value: Hex(vec![0, 0, 0, bits & 0x06]) })
+    // the flags word, usually alone (length 4), sometimes followed by further value bytes
+    (0u8..8, prop_oneof![6 => Just(0usize), 1 => 1usize..=3], any::<[u8; 12]>()).prop_map(|(bits, extra_words, x)| {
+        let mut v = vec![0, 0, 0, bits & 0x06];
+        v.extend_from_slice(&x[..extra_words * 4]);
+        StunAttr { typ: 3, value: Hex(v) }
+    })
 }
 
+/// attribute types of the IANA STUN registry (RFC 3489 / 5389 / 5766 / 5780 / 8445 / 8489 ...)
+/// other than MAPPED-ADDRESS (whose value the responder decodes) and CHANGE-REQUEST, with the
+/// value length that is typical for each (0 = variable)
+pub const STUN_ATTR_REGISTRY: [(u16, usize); 44] = [
+    (0x0002, 8), (0x0004, 8), (0x0005, 8), (0x0006, 0), (0x0007, 0), (0x0008, 20), (0x0009, 0), (0x000a, 0), (0x000b, 8), (0x000c, 4),
+    (0x000d, 4), (0x0012, 8), (0x0013, 0), (0x0014, 0), (0x0015, 0), (0x0016, 8), (0x0017, 4), (0x0018, 4), (0x0019, 4), (0x001a, 0),
+    (0x001c, 32), (0x001d, 4), (0x001e, 32), (0x0020, 8), (0x0022, 8), (0x0024, 4), (0x0025, 0), (0x0026, 0), (0x0027, 4), (0x002a, 4),
+    (0x8000, 4), (0x8022, 0), (0x8023, 8), (0x8025, 4), (0x8027, 4), (0x8028, 4), (0x8029, 8), (0x802a, 8), (0x802b, 8), (0x802c, 8),
+    (0x802d, 4), (0x802e, 0), (0x8030, 0), (0xc001, 0),
+];
+
 fn stun_other_attr() -> impl Strategy<Value = StunAttr> {
-    (prop::sample::select(vec![0x0006u16, 0x8022, 0x0024, 0x8029, 0x0008, 0x0014, 0x0015, 0x7777, 0xc001, 0x0000, 0x0000, 0x8028, 0x0020]), 0usize..=16, any::<[u8; 32]>(), any::<[u8; 32]>())
-        .prop_map(|(typ, words, a, b)| {
-            let mut val = a.to_vec();
-            val.extend_from_slice(&b);
-            val.truncate(words * 4);
-            StunAttr { typ, value: Hex(val) }
-        })
+    let typ_len = prop_oneof![
+        // a registered type with its typical length (variable ones: any)
+        5 => (prop::sample::select(STUN_ATTR_REGISTRY.to_vec()), 0usize..=16).prop_map(|((t, l), w)| (t, if l == 0 { w * 4 } else { l })),
+        // a registered type with any length
+        2 => (prop::sample::select(STUN_ATTR_REGISTRY.to_vec()), 0usize..=16).prop_map(|((t, _), w)| (t, w * 4)),
+        2 => (prop::sample::select(vec![0x0000u16, 0x0000, 0x7777, 0xffff, 0x7fff, 0x8001]), 0usize..=16).prop_map(|(t, w)| (t, w * 4)),
+        1 => (any::<u16>().prop_map(|t| if t == 1 || t == 3 { 0x8022 } else { t }), 0usize..=16).prop_map(|(t, w)| (t, w * 4)),
+    ];
+    (typ_len, any::<[u8; 32]>(), any::<[u8; 32]>()).prop_map(|((typ, len), a, b)| {
+        let mut val = a.to_vec();
+        val.extend_from_slice(&b);
+        val.truncate(len);
+        StunAttr { typ, value: Hex(val) }
+    })
 }
 
 /// Well-formed binding request *with* magic cookie: 0..6 TLVs, CHANGE-REQUEST at most once.
@@ -276,7 +341,7 @@ pub fn stun_req_magic() -> impl Strategy<Value = StunReq> {
 
 /// The two published RFC 3489 forms (no cookie): no attributes, or a single CHANGE-REQUEST.
 pub fn stun_req_classic() -> impl Strategy<Value = StunReq> {
-    (stun_id(), prop::option::of(stun_change_request())).prop_map(|(id, cr)| StunReq { mtype: 1, magic: false, id, attrs: cr.into_iter().collect() })
+    (stun_id(), prop::option::of((0u8..8).prop_map(|bits| StunAttr { typ: 3, value: Hex(vec![0, 0, 0, bits & 0x06]) }))).prop_map(|(id, cr)| StunReq { mtype: 1, magic: false, id, attrs: cr.into_iter().collect() })
 }
 
 /// magic-cookie request whose attribute bytes exceed 255 (so that the message length's high
@@ -302,6 +367,10 @@ pub struct StunPadded {
 }
 
 impl StunPadded {
+    /// number of CHANGE-REQUEST attributes with the change-port bit
+    pub fn change_port_count(&self) -> usize {
+        self.attrs.iter().filter(|a| a.typ == 3 && a.value.len() >= 4 && (be32(&a.value, 0) & 2) != 0).count()
+    }
     pub fn bytes(&self) -> Vec<u8> {
         let mut ab = Vec::new();
         for a in &self.attrs {
@@ -323,8 +392,12 @@ impl StunPadded {
 }
 
 pub fn stun_padded() -> impl Strategy<Value = StunPadded> {
-    (any::<[u8; 16]>(), vec((prop::sample::select(vec![0x0006u16, 0x8022, 0x0014, 0x0015, 0xc001]), vec(any::<u8>(), 1..200)), 1..4), any::<u8>()).prop_map(|(id, at, fill)| {
+    (any::<[u8; 16]>(), vec((prop_oneof![2 => prop::sample::select(vec![0x0006u16, 0x8022, 0x0014, 0x0015, 0xc001]), 1 => prop::sample::select(STUN_ATTR_REGISTRY.to_vec()).prop_map(|(t, _)| t)], vec(any::<u8>(), 1..200)), 1..4), any::<u8>(), prop::option::weighted(0.4, (stun_change_request(), any::<u16>()))).prop_map(|(id, at, fill, cr)| {
         let mut attrs: Vec<StunAttr> = at.into_iter().map(|(typ, value)| StunAttr { typ, value: Hex(value) }).collect();
+        if let Some((c, pos)) = cr {
+            let p = pick(pos, attrs.len() + 1);
+            attrs.insert(p, c);
+        }
         // make sure the message is longer than 255 bytes (outside the shadowing divergence)
         attrs.push(StunAttr { typ: 0x8022, value: Hex(vec![fill; 257]) });
         StunPadded { id, attrs }
@@ -410,8 +483,28 @@ fn dns_long_name() -> impl Strategy<Value = DnsQuestion> {
     })
 }
 
+/// special-use and well-known names (RFC 6761 / 6762 / 7686 / 8375, reverse zones, the names
+/// scanners ask for), in mixed case, optionally below further labels
+fn dns_special_name() -> impl Strategy<Value = DnsQuestion> {
+    let names = vec![
+        "localhost", "localhost.localdomain", "local", "invalid", "test", "example", "example.com", "example.net", "example.org", "onion", "home.arpa", "lan", "internal",
+        "1.0.0.127.in-addr.arpa", "10.in-addr.arpa", "254.169.in-addr.arpa", "in-addr.arpa", "ip6.arpa", "8.e.f.ip6.arpa", "arpa",
+        "version.bind", "hostname.bind", "id.server", "authors.bind", "wpad", "isatap", "_services._dns-sd._udp.local", "_http._tcp.local", "ipv4only.arpa",
+        "com", "net", "org", "www.google.com", "a.root-servers.net", "resolver1.opendns.com", "dnsscan.shadowserver.org", "openresolver.com",
+    ];
+    (prop::sample::select(names), vec("[a-z0-9-]{1,12}", 0..=2), any::<u64>()).prop_map(|(n, pre, casebits)| {
+        let mut labels: Vec<Hex> = pre.into_iter().map(|s| Hex(s.into_bytes())).collect();
+        let mut k = 0;
+        for l in n.split('.') {
+            let b: Vec<u8> = l.bytes().map(|c| { k += 1; if (casebits >> (k % 64)) & 1 == 1 && k % 3 == 0 { c.to_ascii_uppercase() } else { c } }).collect();
+            labels.push(Hex(b));
+        }
+        DnsQuestion { labels, qtype: 1, qclass: 1 }
+    })
+}
+
 pub fn dns_question_a() -> impl Strategy<Value = DnsQuestion> {
-    prop_oneof![12 => dns_question_mixed(), 1 => dns_long_name()]
+    prop_oneof![10 => dns_question_mixed(), 1 => dns_long_name(), 3 => dns_special_name()]
 }
 
 fn dns_question_mixed() -> impl Strategy<Value = DnsQuestion> {
@@ -509,8 +602,9 @@ pub fn rpc_call() -> impl Strategy<Value = RpcCall> {
         prop_oneof![4 => Just(100000u32), 2 => 99840u32..=100095, 1 => Just(100003u32), 1 => Just(100005u32)],
         prop_oneof![3 => 2u32..=4, 2 => 0u32..=6, 1 => any::<u32>(), 1 => Just(104316u32)],
         prop_oneof![3 => 0u32..=5, 2 => 0u32..=255],
-        (prop_oneof![3 => Just(0u32), 1 => Just(1u32), 1 => any::<u32>()], prop_oneof![8 => (0usize..=16).prop_map(|w| w * 4), 2 => 0usize..=64, 1 => (64usize..=80).prop_map(|w| w * 4), 1 => 255usize..=300], any::<[u8; 32]>(), any::<[u8; 32]>()),
-        (prop_oneof![4 => Just(0u32), 1 => any::<u32>()], prop_oneof![6 => Just(0usize), 1 => (1usize..=8).prop_map(|w| w * 4), 1 => 1usize..=32], any::<[u8; 32]>()),
+        (prop_oneof![3 => Just(0u32), 1 => Just(1u32), 1 => any::<u32>()], prop_oneof![8 => (0usize..=16).prop_map(|w| w * 4), 2 => 0usize..=64, 1 => (64usize..=80).prop_map(|w| w * 4), 1 => 255usize..=300, 1 => 396usize..=400], any::<[u8; 32]>(), any::<[u8; 32]>()),
+        // verifier: usually AUTH_NONE / empty; lengths up to the RFC 5531 limit of 400 bytes
+        (prop_oneof![4 => Just(0u32), 1 => any::<u32>()], prop_oneof![10 => Just(0usize), 2 => (1usize..=8).prop_map(|w| w * 4), 2 => 1usize..=32, 1 => (16usize..=100).prop_map(|w| w * 4), 1 => 255usize..=300, 1 => 396usize..=400], any::<[u8; 32]>()),
         prop_oneof![2 => Just(Hex(vec![])), 1 => vec(any::<u8>(), 0..40).prop_map(Hex), 1 => any::<[u8; 16]>().prop_map(|a| Hex(a.to_vec()))],
     )
         .prop_map(|((xid, rpcvers_low), program, version, procedure, (cred_flavor, cl, ca, cb), (verf_flavor, vl, va), args)| {
@@ -522,6 +616,10 @@ pub fn rpc_call() -> impl Strategy<Value = RpcCall> {
             }
             cred.truncate(cl);
             let mut verf = va.to_vec();
+            while verf.len() < vl {
+                let k = verf.len();
+                verf.push(va[k % 32] ^ (k as u8));
+            }
             verf.truncate(vl);
             RpcCall { xid, rpcvers_low, program, version, procedure, cred_flavor, cred: Hex(cred), verf_flavor, verf: Hex(verf), args }
         })
@@ -735,13 +833,55 @@ fn smb1_dialect_name() -> impl Strategy<Value = String> {
     ]
 }
 
+/// security blobs as clients send them: raw NTLMSSP messages (NEGOTIATE 1, CHALLENGE 2,
+/// AUTHENTICATE 3, other type numbers), the same inside a SPNEGO negTokenInit / negTokenResp
+/// wrapper, Kerberos-looking tokens, arbitrary bytes
+pub fn security_blob() -> impl Strategy<Value = Vec<u8>> {
+    let ntlm = (prop_oneof![3 => Just(1u32), 1 => Just(2u32), 4 => Just(3u32), 1 => any::<u32>()], vec(any::<u8>(), 0..200)).prop_map(|(t, rest)| {
+        let mut v = b"NTLMSSP\0".to_vec();
+        v.extend_from_slice(&t.to_le_bytes());
+        v.extend_from_slice(&rest);
+        v
+    });
+    let ntlm2 = (prop_oneof![3 => Just(1u32), 1 => Just(2u32), 4 => Just(3u32), 1 => any::<u32>()], vec(any::<u8>(), 0..120)).prop_map(|(t, rest)| {
+        let mut v = b"NTLMSSP\0".to_vec();
+        v.extend_from_slice(&t.to_le_bytes());
+        v.extend_from_slice(&rest);
+        v
+    });
+    prop_oneof![
+        3 => vec(any::<u8>(), 1..300),
+        3 => ntlm,
+        2 => (ntlm2, any::<bool>()).prop_map(|(n, init)| {
+            // approximate DER framing; lengths are consistent for short tokens
+            let mut v = if init {
+                let mech: &[u8] = &[0x30, 0x0c, 0x06, 0x0a, 0x2b, 0x06, 0x01, 0x04, 0x01, 0x82, 0x37, 0x02, 0x02, 0x0a];
+                let mut inner = vec![0xa0, mech.len() as u8];
+                inner.extend_from_slice(mech);
+                inner.extend_from_slice(&[0xa2, (n.len() + 2).min(127) as u8, 0x04, n.len().min(127) as u8]);
+                inner.extend_from_slice(&n);
+                let mut v = vec![0x60, 0x81, (inner.len() + 12).min(255) as u8, 0x06, 0x06, 0x2b, 0x06, 0x01, 0x05, 0x05, 0x02, 0xa0, 0x81, (inner.len() + 3).min(255) as u8, 0x30, 0x81, inner.len().min(255) as u8];
+                v.extend_from_slice(&inner);
+                v
+            } else {
+                let mut v = vec![0xa1, 0x81, (n.len() + 7).min(255) as u8, 0x30, 0x81, (n.len() + 4).min(255) as u8, 0xa2, 0x81, (n.len() + 1).min(255) as u8, 0x04, 0x81, n.len().min(255) as u8];
+                v.extend_from_slice(&n);
+                v
+            };
+            v.truncate(299);
+            v
+        }),
+        1 => vec(any::<u8>(), 0..60).prop_map(|r| { let mut v = vec![0x60, 0x82, 0x01, 0x00, 0x06, 0x09, 0x2a, 0x86, 0x48, 0x86, 0xf7, 0x12, 0x01, 0x02, 0x02, 0x01, 0x00, 0x6e]; v.extend_from_slice(&r); v }),
+    ]
+}
+
 pub fn smb_req() -> impl Strategy<Value = SmbReq> {
     prop_oneof![
         (smb1_hdr(0x72), vec(smb1_dialect_name(), 1..=8)).prop_map(|(hdr, dialects)| SmbReq::Smb1Negotiate { hdr, dialects }),
-        (smb1_hdr(0x73), vec(any::<u8>(), 1..300), any::<[u16; 6]>(), any::<u32>(), vec(any::<u8>(), 0..24)).prop_map(|(hdr, blob, words, caps, trailer)| SmbReq::Smb1SessionSetup { hdr, blob: Hex(blob), words, caps, trailer: Hex(trailer) }),
+        (smb1_hdr(0x73), security_blob(), any::<[u16; 6]>(), any::<u32>(), vec(any::<u8>(), 0..24)).prop_map(|(hdr, blob, words, caps, trailer)| SmbReq::Smb1SessionSetup { hdr, blob: Hex(blob), words, caps, trailer: Hex(trailer) }),
         (smb2_hdr(0), vec(prop_oneof![5 => prop::sample::select(SMB2_SUPPORTED.to_vec()), 2 => any::<u16>()], 1..=8), any::<u16>(), any::<u32>(), any::<[u8; 16]>(), vec(any::<u8>(), 0..24))
             .prop_map(|(hdr, dialects, secmode, caps, guid, trailer)| SmbReq::Smb2Negotiate { hdr, dialects, secmode, caps, guid, trailer: Hex(trailer) }),
-        (smb2_hdr(1), vec(any::<u8>(), 1..300), any::<u8>(), any::<u8>(), any::<u32>(), any::<u32>(), any::<u64>())
+        (smb2_hdr(1), security_blob(), any::<u8>(), any::<u8>(), any::<u32>(), any::<u32>(), any::<u64>())
             .prop_map(|(hdr, blob, flags, secmode, caps, channel, prev)| SmbReq::Smb2SessionSetup { hdr, blob: Hex(blob), flags, secmode, caps, channel, prev }),
     ]
 }
